@@ -83,6 +83,23 @@ CHECKS = {
             TB + "scipy rankdata modelled by doubled ranks, np.argsort, float pow exact below 2^53; float flow powers and distances >= 2^63 by "
             "testing only.",
             "Lean 4 proof (orbit/class counting for transpositions, rank monotonicity) + correspondence", "6/C20"),
+    "C13": ("proof",
+            "(A) Lean noOOB / index-range theorems for every modelled kernel: on every input the public spaces accept, the checked-accessor "
+            "model returns `some` (decoders, tour length, EA/FEA move kernels incl. frequency-table indices, plan length, game mapping, QAP "
+            "objective, swap distance; all literal indices of translated controller/system kernels and of ALL generated ANN architectures). "
+            "(B/C) every stream of those properties is re-run in separate processes under NUMBA_BOUNDSCHECK=1 (own numba cache): an "
+            "IndexError on a valid input is a violation with that input; model OOB <=> IndexError on the malformed streams.",
+            TB + "NUMBA_BOUNDSCHECK=1 only adds IndexError (numba); kernels of C02/C07/C10 join when their checks are integrated (see notes).",
+            "Lean 4 proof (checked-accessor models return some) + bounds-checked differential re-run of all kernel streams", "6/C13"),
+    "C18": ("proof",
+            "18 Lean theorems: the four explicit-format walkers rebuild the prescribed matrix for every n (one generic index-state-machine "
+            "invariant), line wrapping/blank lines are irrelevant, character-level writer -> reader round trip for every constructor-accepted "
+            "instance (n <= 10^9, non-blank comments), tour parser yields permutations; integer characterisations of nint/ceil/ATT. The "
+            "coordinate-metric clause (EUC_2D/CEIL_2D/ATT against an exact binary64 model, GEO against an 80-digit evaluation) and the shipped "
+            "optimal tours are differential testing / exhaustive enumeration, labelled so.",
+            TB + "ASCII input and the shape of sanitize_name fixed points assumed; float distance functions not proved; Instance.__new__ as "
+            "modelled for C05.",
+            "Lean 4 proof (token/character two-layer parser model, walker invariant) + correspondence; metrics by differential testing", "6/C18"),
 }
 NOT_YET = "check not built yet (work in progress; see DESIGN.md section 6)"
 
